@@ -115,7 +115,10 @@ func (c *Config) GetKpasswdServers(realm string, tcp bool) (int, map[int]string,
 	return count, kdcs, nil
 }
 
-func randServOrder(ks []string) map[int]string {
+func randServOrder(servers []string) map[int]string {
+	// work on a copy so that the configuration is not modified
+	ks := make([]string, len(servers))
+	copy(ks, servers)
 	kdcs := make(map[int]string)
 	count := len(ks)
 	i := 1
